@@ -127,4 +127,95 @@ theorem head_encode_ne_hash (bs : Bytes) : (encode bs).head? ≠ some 35 := by
   obtain ⟨n, hn, e⟩ := encode_alpha bs _ hm
   exact encChar_ne_hash hn e.symm
 
+/-- Replacing ONE character of an encoding by another alphabet character: the text
+still decodes, to the same bytes except inside a window of at most two bytes whose
+place is determined by the character's position. -/
+theorem decodeGroups_set_alpha (B : Bytes) : ∀ (i w : Nat), i < (encode B).length → w < 64 →
+    ∃ pre mid mid' suf, B = pre ++ mid ++ suf ∧
+      decodeGroups ((encode B).set i (encChar w)) = some (pre ++ mid' ++ suf) ∧
+      mid.length = mid'.length ∧ mid.length ≤ 2 ∧
+      3 * (i / 4) + (i % 4 - 1) ≤ pre.length ∧
+      pre.length + mid.length ≤ 3 * (i / 4) + min (i % 4 + 1) 3 := by
+  induction B using encode.induct with
+  | case1 a b c rest ih =>
+    intro i w hi hw
+    have ha := a.toNat_lt; have hb := b.toNat_lt; have hc := c.toNat_lt
+    have hrest := decodeGroups_encode rest
+    have d0 := decChar_encChar (show a.toNat / 4 < 64 by omega)
+    have d1 := decChar_encChar (show a.toNat % 4 * 16 + b.toNat / 16 < 64 by omega)
+    have d2 := decChar_encChar (show b.toNat % 16 * 4 + c.toNat / 64 < 64 by omega)
+    have d3 := decChar_encChar (show c.toNat % 64 < 64 by omega)
+    have dw := decChar_encChar hw
+    have ea : a.toNat / 4 * 4 + (a.toNat % 4 * 16 + b.toNat / 16) / 16 = a.toNat := by omega
+    have eb : (a.toNat % 4 * 16 + b.toNat / 16) % 16 * 16 + (b.toNat % 16 * 4 + c.toNat / 64) / 4 = b.toNat := by omega
+    have ec : (b.toNat % 16 * 4 + c.toNat / 64) % 4 * 64 + c.toNat % 64 = c.toNat := by omega
+    match i, hi with
+    | 0, _ =>
+      refine ⟨[], [a], [UInt8.ofNat (w * 4 + (a.toNat % 4 * 16 + b.toNat / 16) / 16)], b :: c :: rest, rfl, ?_, rfl, by simp, by simp, by simp⟩
+      simp only [encode, List.set_cons_zero, decodeGroups, dw, d1, d2, d3, hrest, eb, ec, ofNat_toNat]
+      rfl
+    | 1, _ =>
+      refine ⟨[], [a, b], [UInt8.ofNat (a.toNat / 4 * 4 + w / 16),
+        UInt8.ofNat (w % 16 * 16 + (b.toNat % 16 * 4 + c.toNat / 64) / 4)], c :: rest, rfl, ?_, rfl, by simp, by simp, by simp⟩
+      simp only [encode, List.set_cons_succ, List.set_cons_zero, decodeGroups, dw, d0, d2, d3, hrest, ec, ofNat_toNat]
+      rfl
+    | 2, _ =>
+      refine ⟨[a], [b, c], [UInt8.ofNat ((a.toNat % 4 * 16 + b.toNat / 16) % 16 * 16 + w / 4),
+        UInt8.ofNat (w % 4 * 64 + c.toNat % 64)], rest, rfl, ?_, rfl, by simp, by simp, by simp⟩
+      simp only [encode, List.set_cons_succ, List.set_cons_zero, decodeGroups, dw, d0, d1, d3, hrest, ea, ofNat_toNat]
+      rfl
+    | 3, _ =>
+      refine ⟨[a, b], [c], [UInt8.ofNat ((b.toNat % 16 * 4 + c.toNat / 64) % 4 * 64 + w)], rest, rfl, ?_, rfl, by simp, by simp, by simp⟩
+      simp only [encode, List.set_cons_succ, List.set_cons_zero, decodeGroups, dw, d0, d1, d2, hrest, ea, eb, ofNat_toNat]
+      rfl
+    | k + 4, hk =>
+      have hk' : k < (encode rest).length := by simpa [encode] using hk
+      obtain ⟨pre, mid, mid', suf, h1, h2, h3, h4, h5, h6⟩ := ih k w hk' hw
+      refine ⟨a :: b :: c :: pre, mid, mid', suf, by simp [h1], ?_, h3, h4, ?_, ?_⟩
+      · simp only [encode, List.set_cons_succ, decodeGroups, d0, d1, d2, d3, h2, ea, eb, ec, ofNat_toNat]
+        rfl
+      · simp only [List.length_cons]; omega
+      · simp only [List.length_cons]; omega
+  | case2 a b =>
+    intro i w hi hw
+    have ha := a.toNat_lt; have hb := b.toNat_lt
+    have d0 := decChar_encChar (show a.toNat / 4 < 64 by omega)
+    have d1 := decChar_encChar (show a.toNat % 4 * 16 + b.toNat / 16 < 64 by omega)
+    have d2 := decChar_encChar (show b.toNat % 16 * 4 < 64 by omega)
+    have dw := decChar_encChar hw
+    have ea : a.toNat / 4 * 4 + (a.toNat % 4 * 16 + b.toNat / 16) / 16 = a.toNat := by omega
+    have eb : (a.toNat % 4 * 16 + b.toNat / 16) % 16 * 16 + (b.toNat % 16 * 4) / 4 = b.toNat := by omega
+    match i, hi with
+    | 0, _ =>
+      refine ⟨[], [a], [UInt8.ofNat (w * 4 + (a.toNat % 4 * 16 + b.toNat / 16) / 16)], [b], rfl, ?_, rfl, by simp, by simp, by simp⟩
+      simp only [encode, List.set_cons_zero, decodeGroups, dw, d1, d2, eb, ofNat_toNat]
+      rfl
+    | 1, _ =>
+      refine ⟨[], [a, b], [UInt8.ofNat (a.toNat / 4 * 4 + w / 16),
+        UInt8.ofNat (w % 16 * 16 + (b.toNat % 16 * 4) / 4)], [], rfl, ?_, rfl, by simp, by simp, by simp⟩
+      simp only [encode, List.set_cons_succ, List.set_cons_zero, decodeGroups, dw, d0, d2]
+      rfl
+    | 2, _ =>
+      refine ⟨[a], [b], [UInt8.ofNat ((a.toNat % 4 * 16 + b.toNat / 16) % 16 * 16 + w / 4)], [], rfl, ?_, rfl, by simp, by simp, by simp⟩
+      simp only [encode, List.set_cons_succ, List.set_cons_zero, decodeGroups, dw, d0, d1, ea, ofNat_toNat]
+      rfl
+    | k + 3, hk => simp [encode] at hk; omega
+  | case3 a =>
+    intro i w hi hw
+    have ha := a.toNat_lt
+    have d0 := decChar_encChar (show a.toNat / 4 < 64 by omega)
+    have d1 := decChar_encChar (show a.toNat % 4 * 16 < 64 by omega)
+    have dw := decChar_encChar hw
+    match i, hi with
+    | 0, _ =>
+      refine ⟨[], [a], [UInt8.ofNat (w * 4 + (a.toNat % 4 * 16) / 16)], [], rfl, ?_, rfl, by simp, by simp, by simp⟩
+      simp only [encode, List.set_cons_zero, decodeGroups, dw, d1]
+      rfl
+    | 1, _ =>
+      refine ⟨[], [a], [UInt8.ofNat (a.toNat / 4 * 4 + w / 16)], [], rfl, ?_, rfl, by simp, by simp, by simp⟩
+      simp only [encode, List.set_cons_succ, List.set_cons_zero, decodeGroups, dw, d0]
+      rfl
+    | k + 2, hk => simp [encode] at hk; omega
+  | case4 => intro i w hi; simp [encode] at hi
+
 end GnoVerif.Base64
